@@ -274,6 +274,7 @@ def main(prop, tier, seed, replay=None):
             with open(replay) as f:
                 rp = json.load(f)
             cases = [rp["case"]]
+            os.environ["VF_PARTIAL"] = "1"
         else:
             cases = mod.gen_cases(tier, seed)
         if os.environ.get("VF_ONLY"):      # debugging aid: restrict to case ids matching a regex
